@@ -322,6 +322,17 @@ func augParams(c *Ctx, a *flAgg) {
 		included := false
 		if L.Op == OpBuiltin && L.Name == "append" {
 			base := L.Args[0]
+			// append(nil, xs...) is xs (slices.Concat / Clone spell it that way)
+			for i := 0; i < 3; i++ {
+				if base.Op == OpBuiltin && base.Name == "append" && len(base.Args) == 2 && (isFreshEmpty(base.Args[0]) || base.Args[0].isNilConst()) && base.Args[1].Op != OpSlice {
+					base = base.Args[1]
+					continue
+				}
+				break
+			}
+			if base.isNilConst() {
+				base = &Expr{Op: OpConst, Type: base.Type}
+			}
 			if base.Op == OpBuiltin && base.Name == "append" && len(base.Args) == 2 && base.Args[1].Op == OpSlice && (isFreshEmpty(base.Args[0]) || base.Args[0].Op == OpConst) {
 				if v := p.Cells[base.Args[1].Args[0].String()+"[0]"]; v != nil && v.String() == recv0 {
 					included = true
@@ -440,6 +451,13 @@ func augFuncASTOrder(c *Ctx, a *flAgg) {
 	anons := append([]*ssa.Function{}, fn.AnonFuncs...)
 	for _, h := range blocksOwners(fn)[1:] {
 		anons = append(anons, h.AnonFuncs...) // the walk moved into a helper
+	}
+	// ... or into an ast.Visitor: the Visit methods of the package outside the
+	// pinned vocabulary
+	for _, f := range c.L.SrcFuncs("stack") {
+		if f.Name() == "Visit" && f.Signature.Recv() != nil && defaultInline(f) {
+			anons = append(anons, f)
+		}
 	}
 	for _, af := range anons {
 		x := &SPE{Fn: af, MaxVisits: 2}
